@@ -28,6 +28,7 @@ UNIVERSE = {
 }
 DEPOT = ('DEPOT', 'NODEPOT')
 PMODES = ('DRUG', 'MET')
+LAGTIME_MODES = ('ON', 'OFF')
 PRODUCTION = ('PRODUCTION', 'DEGRADATION')
 PDTYPE = ('LINEAR', 'EMAX', 'SIGMOID')
 FP = ('EXP', 'POW', 'LIN', 'PIECE_LIN', 'CAT', 'CAT2', 'CUSTOM')
@@ -206,7 +207,7 @@ def render(spec, plain=False):
         name = _case(d['kind'], nxt() % 3) + ('?' if d['optional'] else '')
         args = []
         for i, a in enumerate(d['args']):
-            keep = d['kind'] == 'LET' and i == 0
+            keep = (d['kind'] == 'LET' and i == 0) or d['kind'] == 'ALLOMETRY'
             if a.startswith('@') or keep:
                 args.append(a)
             else:
@@ -271,62 +272,99 @@ def stmt(kinds, flags):
 
 
 def _flagset(bits, always=0):
-    """strategy of ints whose set bits are a subset of `bits` (each bit on with prob ~1/3)"""
-    return st.lists(st.integers(0, 2), min_size=len(bits), max_size=len(bits)).map(
-        lambda xs: always | sum(b for b, x in zip(bits, xs) if x == 0)
-    )
+    """strategy of ints; bits = sequence of (bit, k): the bit is set with probability 1/k"""
+    bits = [(b, 3) if isinstance(b, int) else b for b in bits]
+    return st.tuples(*[st.integers(0, k - 1) for _, k in bits]).map(lambda xs: always | sum(b for (b, _), x in zip(bits, xs) if x == 0))
 
 
 STRUCT_KINDS = ('ABSORPTION', 'ELIMINATION', 'LAGTIME', 'TRANSITS', 'PERIPHERALS')
 PD_KINDS = ('DIRECTEFFECT', 'EFFECTCOMP', 'INDIRECTEFFECT', 'METABOLITE')
-BASIC_FLAGS = (F_WILD, F_BRACKET, F_RANGE, F_NO2, F_WILD2)
-COV_FLAGS = (F_WILD, F_BRACKET, F_OPT, F_OP1, F_OP2)
 FMT = st.lists(st.integers(0, 11), min_size=1, max_size=6)
+
+
+def _weighted(*pairs):
+    """weighted choice (one_of() collapses repeated branches, so draw the branch index)"""
+    table = []
+    for i, (_, w) in enumerate(pairs):
+        table.extend([i] * w)
+    return st.sampled_from(table).flatmap(lambda i: pairs[i][0])
 
 
 def space(profile='full', min_size=1, max_size=7):
     """profiles:
     'full'     every statement kind, LET + references, automatic symbols, parameter/covariate
-               wildcards, ALLOMETRY (rare)
-    'algebra'  no automatic symbols, no parameter/covariate wildcards, no ALLOMETRY
-    'nowild'   like 'algebra' but without '*' for the single-option categories (rare otherwise)
+               wildcards and ALLOMETRY (both rare: they hit known defects of the parser)
+    'algebra'  no automatic symbols, no parameter/covariate wildcards, no ALLOMETRY; '*' for the
+               one-option categories and for the peripheral kind is rare (known defects of - and ==)
     'pk'       structural PK statements only
     """
-    basic = stmt(STRUCT_KINDS, _flagset(BASIC_FLAGS))
-    pd = stmt(PD_KINDS, _flagset((F_WILD, F_BRACKET, F_NO2)))
-    cov_plain = stmt(('COVARIATE',), _flagset(COV_FLAGS, always=0))
-    cov_opt = stmt(('COVARIATE',), _flagset(COV_FLAGS, always=F_OPT))
-    cov_let = stmt(('COVARIATE',), _flagset(COV_FLAGS + (F_PREF, F_CREF), always=F_OPT))
+    wild_k = 4 if profile == 'full' else 12
+    counted = stmt(('TRANSITS', 'PERIPHERALS'), _flagset(((F_WILD2, wild_k), F_BRACKET, F_RANGE, F_NO2)))
+    simple = stmt(('ABSORPTION', 'ELIMINATION', 'LAGTIME'), _flagset(((F_WILD, wild_k), F_BRACKET)))
+    basic = _weighted((counted, 2), (simple, 3))
+    pd = stmt(PD_KINDS, _flagset(((F_WILD, 4), F_BRACKET, (F_NO2, 4))))
+    cov_plain = stmt(('COVARIATE',), _flagset((F_BRACKET, F_OP1, F_OP2)))
+    cov_opt = stmt(('COVARIATE',), _flagset((F_WILD, F_BRACKET, F_OP1, F_OP2), always=F_OPT))
+    cov_let = stmt(('COVARIATE',), _flagset((F_WILD, F_BRACKET, F_OP1, F_OP2, (F_PREF, 2), (F_CREF, 2)), always=F_OPT))
     let = stmt(('LET',), _flagset((F_BRACKET,)))
     if profile == 'pk':
         items = basic
-    elif profile in ('algebra', 'nowild'):
-        items = st.one_of(basic, basic, basic, pd, cov_plain, cov_opt, cov_opt, cov_let, let)
+        tail = st.just([])
+    elif profile == 'algebra':
+        items = _weighted((basic, 10), (pd, 3), (cov_plain, 1), (cov_opt, 3), (cov_let, 1))
+        tail = st.lists(let, max_size=3)
     else:
-        cov_sym = stmt(('COVARIATE',), _flagset(COV_FLAGS + (F_PREF, F_CREF, F_PWILD, F_CWILD, F_AUTOREF), always=F_OPT))
+        cov_sym = stmt(('COVARIATE',), _flagset((F_WILD, F_BRACKET, F_OP1, (F_PREF, 2), (F_CREF, 2), (F_PWILD, 6), (F_CWILD, 6), (F_AUTOREF, 2)), always=F_OPT))
         allo = stmt(('ALLOMETRY',), _flagset((F_NO2,)))
-        items = st.one_of(basic, basic, basic, basic, pd, pd, cov_plain, cov_opt, cov_opt, cov_let, let, cov_sym, st.one_of(cov_sym, allo))
-    return st.fixed_dictionaries(dict(st=st.lists(items, min_size=min_size, max_size=max_size), fmt=FMT))
+        items = _weighted((basic, 20), (pd, 7), (cov_plain, 2), (cov_opt, 5), (cov_let, 3), (cov_sym, 3), (let, 2), (allo, 1))
+        tail = st.lists(let, max_size=2)
+    return st.builds(lambda body, t, fmt: dict(st=body + t, fmt=fmt), st.lists(items, min_size=min_size, max_size=max_size), tail, FMT)
 
 
 def model_features():
-    """one concrete model: one feature per structural category (what get_model_features prints)"""
+    """one concrete model: one feature per structural category (what get_model_features prints);
+    `inn[i]` != 0 takes the feature of category i from the search space it is compared with"""
     return st.fixed_dictionaries(
-        dict(abs=st.integers(0, 3), elim=st.integers(0, 3), lag=st.integers(0, 1), tr=st.integers(0, 4), depot=st.integers(0, 1), per=st.integers(0, 3))
+        dict(
+            abs=st.integers(0, 3), elim=st.integers(0, 3), lag=st.integers(0, 1), tr=st.integers(0, 4), depot=st.integers(0, 1), per=st.integers(0, 3),
+            inn=st.lists(st.integers(0, 2), min_size=5, max_size=5),
+        )
     )
 
 
-def render_model(m):
-    """string in the style of get_model_features(): defaults are left out"""
-    g = lambda k: m.get(k, 0) if isinstance(m.get(k, 0), int) else 0  # noqa: E731
-    parts = [
-        f"ABSORPTION({UNIVERSE['ABSORPTION'][g('abs') % 4]})",
-        f"ELIMINATION({UNIVERSE['ELIMINATION'][g('elim') % 4]})",
-    ]
-    if g('lag') % 2 == 0:
+MODEL_CATEGORIES = ('ABSORPTION', 'ELIMINATION', 'LAGTIME', 'TRANSITS', 'PERIPHERALS')
+
+
+def model_atoms(m, space=None):
+    """-> {category: atom}; space: optional expansion (category -> set of atoms) to draw from"""
+    g = lambda k: m.get(k, 0) if isinstance(m.get(k, 0), int) and not isinstance(m.get(k, 0), bool) else 0  # noqa: E731
+    own = {
+        'ABSORPTION': ('ABSORPTION', UNIVERSE['ABSORPTION'][g('abs') % 4]),
+        'ELIMINATION': ('ELIMINATION', UNIVERSE['ELIMINATION'][g('elim') % 4]),
+        'LAGTIME': ('LAGTIME', LAGTIME_MODES[g('lag') % 2]),
+        'TRANSITS': ('TRANSITS', g('tr') % 5, DEPOT[g('depot') % 2]),
+        'PERIPHERALS': ('PERIPHERALS', g('per') % 4, 'DRUG'),
+    }
+    inn = m.get('inn', []) if isinstance(m.get('inn', []), list) else []
+    idx = dict(ABSORPTION=g('abs'), ELIMINATION=g('elim'), LAGTIME=g('lag'), TRANSITS=g('tr') + 5 * g('depot'), PERIPHERALS=g('per'))
+    for i, c in enumerate(MODEL_CATEGORIES):
+        flag = inn[i] if i < len(inn) and isinstance(inn[i], int) else 0
+        if space is not None and flag % 3 != 0:
+            opts = sorted((a for a in space.get(c, ()) if c != 'PERIPHERALS' or a[2] == 'DRUG'), key=repr)
+            if opts:
+                own[c] = opts[idx[c] % len(opts)]
+    return own
+
+
+def render_model_atoms(atoms):
+    """string in the style of get_model_features(): lagtime off, 0 transits and 0 peripherals are left out"""
+    parts = [f"ABSORPTION({atoms['ABSORPTION'][1]})", f"ELIMINATION({atoms['ELIMINATION'][1]})"]
+    if atoms['LAGTIME'][1] == 'ON':
         parts.append('LAGTIME(ON)')
-    if g('tr') % 5:
-        parts.append(f"TRANSITS({g('tr') % 5},{DEPOT[g('depot') % 2]})")
-    if g('per') % 4:
-        parts.append(f"PERIPHERALS({g('per') % 4})")
+    if atoms['TRANSITS'][1] != 0:
+        parts.append(f"TRANSITS({atoms['TRANSITS'][1]},{atoms['TRANSITS'][2]})")
+    elif atoms['TRANSITS'][2] == 'NODEPOT':
+        parts.append('TRANSITS(0,NODEPOT)')
+    if atoms['PERIPHERALS'][1] != 0:
+        parts.append(f"PERIPHERALS({atoms['PERIPHERALS'][1]})")
     return ';'.join(parts)
